@@ -653,11 +653,14 @@ pub struct GenOpts {
     pub max_list: Option<usize>,
     /// probability (per 16) that an integer takes a boundary value
     pub boundary: u64,
+    /// out-of-domain on purpose: element counts 0..300, text up to 2x the field width, 4-bit
+    /// sub-fields and documented maxima ignored (C03 only)
+    pub hostile: bool,
 }
 
 impl Default for GenOpts {
     fn default() -> Self {
-        GenOpts { text: TextMode::Ascii, max_list: None, boundary: 6 }
+        GenOpts { text: TextMode::Ascii, max_list: None, boundary: 6, hostile: false }
     }
 }
 
@@ -696,7 +699,7 @@ impl<'a> Gen<'a> {
     }
 
     fn text(&self, r: &mut Rng, width: usize, zterm: bool, variable: bool, o: &GenOpts) -> String {
-        let cap = if zterm { width - 1 } else { width };
+        let cap = if o.hostile { 2 * width } else if zterm { width - 1 } else { width };
         match o.text {
             TextMode::AsciiPlacement => {
                 // below the maximum, and (variable fields) not a multiple of 4, so that the image is
@@ -764,7 +767,7 @@ impl<'a> Gen<'a> {
             Kind::Pad(_) | Kind::Count(_) => return,
             Kind::U8 | Kind::I8 => {
                 let mut v = int_val(r, 8, o.boundary);
-                if let Some(m) = f.max {
+                if let (Some(m), false) = (f.max, o.hostile) {
                     v = if r.chance(1, 4) { m } else { v % (m + 1) };
                 }
                 Val::U(v)
@@ -829,8 +832,9 @@ impl<'a> Gen<'a> {
             },
             Kind::Ip => Val::B(r.bytes(4)),
             Kind::Nib(hi, lo) => {
-                let _ = fm.insert(hi.clone(), Val::U(r.below(16)));
-                let _ = fm.insert(lo.clone(), Val::U(if lo == "SpareLow" { 0 } else { r.below(16) }));
+                let lim = if o.hostile && r.chance(1, 4) { 256 } else { 16 };
+                let _ = fm.insert(hi.clone(), Val::U(r.below(lim)));
+                let _ = fm.insert(lo.clone(), Val::U(if lo == "SpareLow" { 0 } else { r.below(lim) }));
                 return;
             },
             Kind::Bytes(n) => Val::B(r.bytes(*n)),
@@ -839,8 +843,9 @@ impl<'a> Gen<'a> {
                 Val::L((0..*n).map(|_| self.fields(r, &lay.fields, o)).collect())
             },
             Kind::List { elem, max, .. } => {
-                let cap = o.max_list.unwrap_or(*max).min(*max);
+                let cap = if o.hostile { 300 } else { o.max_list.unwrap_or(*max).min(*max) };
                 let n = match r.below(6) {
+                    _ if o.hostile && r.chance(1, 2) => *r.pick(&[*max, *max + 1, 254, 255, 256, 257, *max - 1, 1, 3]),
                     0 => 0,
                     1 => cap,
                     2 => 1.min(cap),
